@@ -1,5 +1,6 @@
 import NanoVerif.Model.Proto
 import NanoVerif.Model.Boost
+import NanoVerif.Driver.BoostFit
 /-!
   driver family `gbloop` (C11): the round loop of `Model/Boost.lean` driven by the oracle answers that the trace hook H3
   logged during a real `gboost_model_t::fit` (weak-learner scores, scaling minimum, mean errors, statistics rows); it prints
@@ -10,7 +11,7 @@ namespace NanoVerif.Driver.Boost
 open NanoVerif.Proto NanoVerif.Boost NanoVerif.Gen.EarlyStopping
 
 /-- `std::numeric_limits<double>::max()` -/
-def dblMax : Float := Float.ofBits 0x7fefffffffffffff
+def dblMax : Float := BoostFit.dblMax
 
 /-- a weak learner in the driver: `round * prototypes + prototype index`, and the mean train / validation errors of the
     statistics row that `result.update` wrote when it appended the learner -/
@@ -36,6 +37,7 @@ structure FitIn where
   valid0 : Float
   rounds : List Round
   stats0 : Float × Float
+  ext : BoostFit.Ext              -- the data flow of the fold fit (Driver/BoostFit.lean)
 
 def pRound (protos k : Nat) : P Round := fun ts => do
   let (kind, ts) ← pStr ts
@@ -88,7 +90,8 @@ def pFit : P FitIn := fun ts => do
   let (_, ts) ← pNat ts
   let (_, ts) ← pNat ts
   let (_, ts) ← pNat ts
-  pure ({ trial, fold, ntrain, nvalid, maxRounds, eps, pat, protos, noFit, train0, valid0, rounds, stats0 := (s0, s2) }, ts)
+  let (ext, ts) ← BoostFit.pExt ts
+  pure ({ trial, fold, ntrain, nvalid, maxRounds, eps, pat, protos, noFit, train0, valid0, rounds, stats0 := (s0, s2), ext }, ts)
 
 /-- `numeric_limits<scalar_t>::epsilon()` as logged (the same constant in every record; 2⁻⁵² when no round was scaled) -/
 def epsMachOf (rs : List Round) : Float :=
@@ -139,7 +142,7 @@ def reportFit (f : FitIn) : String :=
     s!"{rows.length} " ++ String.intercalate " " (rows.map (fun r => s!"{hexOfFloat r.1} {hexOfFloat r.2}"))
   -- more logged rounds than executed iterations: the implementation went on where the model left the loop
   let extra := if f.rounds.length ≠ executed then s!" unexecuted {f.rounds.length - executed}" else ""
-  String.intercalate " " ([head] ++ perRound ++ [tail]) ++ extra
+  String.intercalate " " ([head] ++ perRound ++ [tail, BoostFit.reportExt f.ext]) ++ extra
 
 def pFits : Nat → P (List FitIn)
   | n, ts => pMany pFit n ts
